@@ -71,7 +71,7 @@ CORPUS = [
 def corpus(ctx):
     S = ctx.cov["S"]
     S["corpus"] = 0
-    for spec in CORPUS:
+    for spec in CORPUS + E.shipped_specs(ctx.n(40, 10 ** 6)):
         bad = oracle_spec(spec)
         S["corpus"] += 1
         if bad:
@@ -80,7 +80,8 @@ def corpus(ctx):
 
 def correspondence(ctx):
     rs = ctx.np_rng("K")
-    items = [(spec, spec["ref"], {"kind": "c01", "stream": "corpus"}) for spec in CORPUS]
+    items = [(spec, spec["ref"], {"kind": "c01", "stream": "corpus"})
+             for spec in CORPUS + [sp for sp in E.shipped_specs(ctx.n(40, 10 ** 6)) if sp["n_ref"] >= 3]]
     for i in range(ctx.n(330, 5000)):
         spec = E.gen_spec(rs, E.GEOMS_GENERIC[i % len(E.GEOMS_GENERIC)])
         items.append((spec, spec["ref"], {"kind": "c01", "stream": "generic"}))
